@@ -4,6 +4,15 @@ defects (from known_findings.json) and seeded changes (from seeded/*/meta.json +
 import glob, json, os, re
 
 MISSED = {
+ # round 6 (K, L; ten properties)
+ 'C06-L': 'list replacement steps (lists given as []any, []string, []int) and filter literals that a record held and lost (plus literals of the generator\'s vocabulary that no live record may hold)',
+ 'C09-K': 'the text field is also overwritten with JSON null and with an object (sequential and concurrent parts)',
+ 'C11-K': 'node ids that contain the "::" separator of the internal graph ids, in the shape and random groups',
+ 'C14-L': 'compound write VDelete+VAdd+VLink(inverse) in the forced-schedule table (all three records both in the captured state and in the replayed log)',
+ 'C17-K': 'group `scaled`: embedders whose vectors are not of unit length on euclidean forbidden-prompt indexes',
+ 'C17-L': 'max_cache_items = 0 (the documented "unlimited") in a third of the worlds',
+ 'C19-K': 'the oversized body also as a chunked body of unknown length; part `bigbody` now runs in the quick tier',
+ 'C19-L': '**not in the property\'s quantifier**: POST /sessions/{id}/end is a session route (DOCUMENTATION.md 5.6), the property ranges over the KV, vector, index, graph and system APIs; kept for the record, not claimed',
  # round 5 (I, J)
  'C02-I': 'same edit as C14-A (Sync no longer drains the queue) seen from the crash side; judged a miss from its description before any run (C02 drove one call at a time): group `covered` (writes acknowledged while a snapshot / compaction is parked are covered once it completed; process death right after it returned)',
  'C02-J': 'a plain restart between the post-recovery deletions and the compaction (c02Evaluate); the same extension found the genuine defect D69',
